@@ -4,6 +4,7 @@ import RV.Proofs.WHSteps
 import RV.Proofs.WHKepler
 import RV.Proofs.WHLink
 import RV.Proofs.WHDH
+import RV.Proofs.WHInt
 /-
   C04 — isolated systems conserve momentum, angular momentum and (as advertised) energy;
   the diagnostics return the defined quantities.
@@ -351,6 +352,36 @@ theorem c04_wh_interaction_step (pref : K → Nat → Nat → K) (cfg : Cfg K) (
     LJ N m s' = LJ N m s ∧ PJ N m s' = PJ N m s ∧ s'.X 0 = s.X 0 :=
   interaction_conserves N hN m heta τ x a c s s'
     (c02_basic_newton3 pref cfg [0] N m x hall a ha) (c02_basic_torque pref cfg N m x hall a ha) h
+
+open RV.WH RV.WHInt RV.Transform in
+/-- the executable model of `reb_whfast_interaction_step` (Jacobi coordinates; RV/Model/WHInt.lean, tied bit
+    for bit to the exported C primitive) has exactly the shape `InteractionLike` postulates: the new
+    velocity of Jacobi body `k+1` is `v + dt·(a' + c·x')`, where `a'` is the *declarative* Jacobi
+    transform (`jrel`, the components of `jacV`) of the inertial accelerations and `c = rji·rj2i·G·η`
+    (`0` for body 1) multiplies the body's own Jacobi position — a radial term that cannot change `x'×v'`.
+    ∀ N; hypothesis: the running masses the acceleration transform divides by are non-zero. -/
+theorem c04_wh_interaction_model (sqrt : K → K) (G soft dt m0 : K) (a0 : V3 K) (bodies : List (JB K))
+    (as : List (V3 K)) (hlen : as.length = bodies.length)
+    (hx : SumsNZ m0 ((bodies.map (·.m)).zip (as.map (·.x)))) (hy : SumsNZ m0 ((bodies.map (·.m)).zip (as.map (·.y))))
+    (hz : SumsNZ m0 ((bodies.map (·.m)).zip (as.map (·.z)))) (k : Nat) (b : JB K) (hb : bodies[k]? = some b) :
+    ∃ (A : V3 K) (c : K),
+      (interactionJacobi sqrt G soft dt m0 a0 bodies as)[k]? = some (b.v + dt • (A + c • b.x)) ∧
+      A.x = jrel (mF ((m0, a0.x) :: (bodies.map (·.m)).zip (as.map (·.x)))) (fF ((m0, a0.x) :: (bodies.map (·.m)).zip (as.map (·.x)))) (k + 1) ∧
+      A.y = jrel (mF ((m0, a0.y) :: (bodies.map (·.m)).zip (as.map (·.y)))) (fF ((m0, a0.y) :: (bodies.map (·.m)).zip (as.map (·.y)))) (k + 1) ∧
+      A.z = jrel (mF ((m0, a0.z) :: (bodies.map (·.m)).zip (as.map (·.z)))) (fF ((m0, a0.z) :: (bodies.map (·.m)).zip (as.map (·.z)))) (k + 1) ∧
+      (k = 0 → c = 0) := by
+  have hk : k < (bodies.map (·.m)).length := by
+    rw [List.length_map]
+    by_contra h
+    have : bodies[k]? = none := by simp; omega
+    rw [this] at hb; cases hb
+  have hA := jacAcc_get m0 a0 (bodies.map (·.m)) as (by simpa using hlen) hx hy hz k hk
+  refine ⟨⟨jrel (mF ((m0, a0.x) :: (bodies.map (·.m)).zip (as.map (·.x)))) (fF ((m0, a0.x) :: (bodies.map (·.m)).zip (as.map (·.x)))) (k + 1),
+      jrel (mF ((m0, a0.y) :: (bodies.map (·.m)).zip (as.map (·.y)))) (fF ((m0, a0.y) :: (bodies.map (·.m)).zip (as.map (·.y)))) (k + 1),
+      jrel (mF ((m0, a0.z) :: (bodies.map (·.m)).zip (as.map (·.z)))) (fF ((m0, a0.z) :: (bodies.map (·.m)).zip (as.map (·.z)))) (k + 1)⟩,
+    coef sqrt G soft 1 m0 bodies k b, ?_, rfl, rfl, rfl, ?_⟩
+  · exact kickLoop_get sqrt G soft dt bodies _ 1 m0 k b _ hb hA
+  · intro h0; subst h0; simp [coef]
 
 open RV.WH in
 /-- hence **every schedule** made of Kepler steps (with or without the centre-of-mass step),
